@@ -36,7 +36,7 @@ ASSUMPTIONS = [
     'embedded document, sorts in which some but not all key comparisons raise (which of them '
     'timsort performs is not modelled), paths with empty components or negative indexes',
     'scope limits (inside F, nothing claimed, python compared with the model only): sort keys '
-    'reaching embedded documents or arrays inside arrays, negative skip, negative $skip/$limit, '
+    'reaching embedded documents or arrays inside arrays, negative skip, '
     '`$`-prefixed sort keys '
     'other than a lone $natural, count_documents limits that are not positive numbers',
     'ObjectIds under a sort key are ids the case supplies (wire.Oids: number n has value n, so '
@@ -49,7 +49,7 @@ ASSUMPTIONS = [
 
 # no known finding is left: emptyslice, objectid and arraykey were repaired in the library
 FINDING_CLASSES = set()
-SCOPE_CLASSES = {'dockey', 'awaredate', 'badpath', 'dollarkey', 'negskip', 'negstage', 'badlimit',
+SCOPE_CLASSES = {'dockey', 'awaredate', 'badpath', 'dollarkey', 'negskip', 'badlimit',
                  'genoid', 'nestedarray'}
 
 DATES = [_dt.datetime(2020, 1, 1), _dt.datetime(1969, 12, 31, 23, 59, 59, 999000)]
@@ -744,16 +744,20 @@ def run_scenarios(ctx, scs, judge, stats):
                         py_oracle = 'I%d' % n
                 elif case[0] == 'agg':
                     cur = list(sel)
+                    rejected = False
                     for st in case[1]:
                         if st[0] == 'sort':
                             cur = o_sorted(cur, st[1])
-                        elif st[1] < 0:
-                            raise Outside('negstage')
+                        elif st[1] < 0 or (st[0] == 'limit' and st[1] == 0):
+                            # a negative $skip, a $limit that is not positive: the pipeline is
+                            # rejected, wherever the stage stands
+                            rejected = True
                         elif st[0] == 'skip':
                             cur = cur[st[1]:]
                         else:
                             cur = cur[:st[1]]
-                    py_oracle = canon_py([d['_id'] for d in cur], sc['oids'])
+                    py_oracle = '!Error' if rejected else \
+                        canon_py([d['_id'] for d in cur], sc['oids'])
             except Outside:
                 py_oracle = None
             lines.append(line)
